@@ -45,8 +45,9 @@ SILENT = ["cl_isNone"]       # reads `_callLaterTask` under the scheduler's lock
 REPAIRED = {"if self._locked is None or self._locked is False:": "if not self._locked:"}      # = HandoffSites.repaired
 FALSY_KEY = "lock:falsy-task:lock granted while another holder has not released"
 HUBRACE_KEY = "hubrace:a task parked in the threaded hub is queued twice (hub thread's _return vs schedule())"
+TWOSCHED_KEY = "twosched:a hand-over to one scheduler put a task into another scheduler's ready queue"
 TIMEOUT_LIMIT = 8
-MAX_STEPS = 6000
+MAX_STEPS = 2500          # the longest legitimate run of a case without an explicit budget takes < 400 steps
 
 
 class Infra(Exception):
@@ -195,6 +196,13 @@ class C07(Check):
             # the reproduction of schedule_hub_race_defect on the real classes; exercised (and reported as KNOWN-FINDING) once the
             # finding is listed in known_findings.json — until then it is available through `--replay corpus/C07/hubrace.json`
             cases.append({"kind": "hubrace", "seed": 13})
+        # two scheduler instances must not share state: a hand-over to a scheduler that is not the default one.  On the current
+        # tree Scheduler.callLater / schedule start their helper task with start() = on the DEFAULT scheduler (candidate repair
+        # fixes/C07_own_scheduler.diff); POX has one scheduler and the check's assumptions say so.  Exercised once the finding is
+        # listed in known_findings.json or the code carries the repair (probed by behaviour); replay: corpus/C07/twosched.json
+        two = {"kind": "twosched"}
+        if common.Findings().match(self.id, TWOSCHED_KEY) or not self.run_twosched(two)["leaked"]:
+            cases.append(two)
         cases += self.lock_corpus()
         cases += [{"kind": "pinger", "ops": ops} for ops in ([0, 1], [0, 0, 0, 1, 0, 1], [0] * 5 + [1, 0, 1, 0, 0, 1])]
         cases += [{"kind": "pinger", "ops": [0] * n + [1, 0, 1]} for n in (1, 2, 1023, 1024, 1025, 2048, 2049)]     # around the read size
@@ -244,14 +252,18 @@ class C07(Check):
         CL, SE, SX = {"o": "callLater"}, {"o": "syncEnter"}, {"o": "syncExit"}
         S0 = {"o": "schedule", "t": 0}
         out = []
-        for users, progs in (([], [[CL], [CL]]), ([[0]], [[S0], [S0]]), ([[0]], [[CL], [S0]]), ([], [[CL], [SE, SX]])):
+        late, early = ["F0", "S", "H", "F1"], ["S", "H", "F0", "F1"]
+        for users, progs, orders in (([], [[CL], [CL]], (late, early)), ([[0]], [[S0], [S0]], (late,)), ([[0]], [[CL], [S0]], (late,)),
+                                     ([], [[CL], [SE, SX]], (late, early))):
             for threaded in (False, True):
-                for order in (["F0", "S", "H", "F1"], ["S", "H", "F0", "F1"]):
+                for order in orders:
                     base = {"kind": "threads", "threaded": threaded, "users": users, "progs": progs}
                     try:
                         info = self.run_threads(dict(base, sched={"type": "preempt", "points": [], "order": order}), want_choices=True)
                     except Exception:
                         continue                     # the scenario itself is in the corpus: a tree that cannot run it is reported there
+                    if len(info["choices"]) > 250 or info.get("thread_errors"):
+                        continue                     # not the protocol any more (on the unchanged tree: < 90 steps); no sweep
                     for step, (names, chosen, at_action) in enumerate(info["choices"]):
                         if not at_action or info["prev"][step] not in names: continue
                         for n in names:
@@ -317,7 +329,7 @@ class C07(Check):
         return case
 
     def generate(self, rng, tier):
-        n = 800 if tier == "quick" else 3000
+        n = 650 if tier == "quick" else 3000
         for i in range(n):
             yield self.gen_threads_case(rng, big=(i % 10 == 9))
         if tier == "thorough":
@@ -744,7 +756,7 @@ class C07(Check):
             return None
         if resp.get("ok") or "error" in resp: return None
         n = resp.get("at")
-        if not isinstance(n, int) or n > 2000: return None         # only a divergence EARLY in the run explains a runaway
+        if not isinstance(n, int) or n > 1000: return None         # only a divergence EARLY in the run explains a runaway
         return [n, str(resp.get("model_site"))[:200]]
 
     def _at_action(self, key):
@@ -1014,6 +1026,26 @@ class C07(Check):
             recoco.deque = saved_deque
             sys.settrace(sys_trace_saved)
 
+    # ------------------------------------------------------------------ implementation: two scheduler instances
+    def run_twosched(self, case):
+        """a default scheduler and a second one (neither running); a function and a task are handed to the SECOND one from a thread
+        that is neither's: nothing may appear in the default scheduler's ready queue, and the second one's must hold the helpers"""
+        recoco = self.recoco
+        saved = recoco.defaultScheduler
+        try:
+            d = recoco.Scheduler(isDefaultScheduler=True, startInThread=False)
+            s2 = recoco.Scheduler(isDefaultScheduler=False, startInThread=False)
+            class T(recoco.BaseTask):
+                def run(self): yield False
+            ready = lambda s: [v for n, v in sorted(vars(s).items()) if isinstance(v, collections.deque)][0]
+            before = (len(ready(d)), len(ready(s2)))
+            s2.callLater(lambda: None)
+            s2.schedule(T())
+            after = (len(ready(d)), len(ready(s2)))
+            return {"leaked": after[0] - before[0], "own": after[1] - before[1]}
+        finally:
+            recoco.defaultScheduler = saved
+
     # ------------------------------------------------------------------ implementation: pinger
     def run_pinger(self, case):
         """the real PipePinger on a real OS pipe: ops 0 = ping, 1 = pongAll.  `pongAll` is called only when select reports
@@ -1058,6 +1090,7 @@ class C07(Check):
         if k == "lock": return self.run_lock(case)
         if k == "pinger": return self.run_pinger(case)
         if k == "hubrace": return self.run_hubrace(case)
+        if k == "twosched": return self.run_twosched(case)
         raise ValueError(k)
 
     def confirm_deadlock(self, case, obs):
@@ -1149,6 +1182,9 @@ class C07(Check):
         if k == "hubrace":
             if obs["dup_ready_at_steps"]: return HUBRACE_KEY.split(":", 1)[1]
             if obs["thread_errors"]: return "exception left a thread"
+        if k == "twosched":
+            if obs["leaked"]: return TWOSCHED_KEY.split(":", 1)[1]
+            if obs["own"] != 2: return "a hand-over to a scheduler did not reach its ready queue"
         if k == "pinger" and obs.get("blocks") and obs.get("why", "").startswith("pongAll blocks"):
             return "pongAll blocks although the pipe was readable (the caller hangs without a time-out)"
         return None
@@ -1231,6 +1267,7 @@ class C07(Check):
 
     def finding_key(self, case, obs, failure):
         if case["kind"] == "hubrace" and obs.get("dup_ready_at_steps"): return HUBRACE_KEY
+        if case["kind"] == "twosched" and obs.get("leaked"): return TWOSCHED_KEY
         if case["kind"] == "lock" and case.get("falsy"): return "lock:falsy-task:" + failure.split(":")[0][:70]
         return "%s:%s" % (case["kind"], failure.split(":")[0][:70])
 
@@ -1375,10 +1412,18 @@ class C07(Check):
                   "nothing in the tree does that.  The liveness reading of 'runs exactly "
                   "once' (eventually executed) is covered by wake_noticed + the quiescence oracle, not by a temporal theorem.")
     rule = ("threads case = (hub mode, user-task yield programs, per-foreign-thread operation lists over {callLater, schedule(u), syncEnter, "
-            "syncExit}, user programs over {yield False, yield 0, callLater, schedule(other user)}, schedule = PCT(seed,d,k) | random(seed) | "
-            "baseline + explicit pre-emptions); lock case = per-task programs over "
-            "{acquire(l, blocking), release(l), yield} on 1-2 locks, 2-4 tasks; pinger case = ping/pongAll sequence; distinct = sha1 of the "
-            "canonical case; non-trivial = the executed trace switches threads at least 4 times (threads) / some task had to wait (lock)")
+            "syncExit, syncExitExc}, user programs over {yield False, yield 0, callLater, schedule(other user)}, schedule = PCT(seed,d,k) | "
+            "random(seed) | priority order + explicit pre-emptions); per callLater: the exception the handed-over function raises (x: "
+            "IndexError/KeyError/ValueError/RuntimeError/StopIteration/GeneratorExit/a BaseException subclass) and the calling convention "
+            "(f: Scheduler.callLater / core.callLater / core.call_later / core.raiseLater, positional / keyword / no arguments = identical queue "
+            "entries; ONE callable object per submitter); per schedule: schedule(t) / schedule(task=t, first=False) / t.start(sched) / "
+            "t.start(scheduler=sched, fast=False); per case: falsy callables (falsy_cb), falsy task objects (falsy_task), the thread's own "
+            "Synchronizer instead of scheduler.synchronized() (syncform), exceptions raised by hand-overs from cooperative code (sx); families: "
+            "batches with a raising function at every position x every exception class, bursts around the pinger's read size, 'late thread' "
+            "sweeps (every single pre-emption on top of two priority orders); lock case = per-task programs over {acquire(l, blocking), "
+            "release(l), yield} on 1-2 locks, 2-4 tasks, acquire's calling convention (aform: bool/int, positional/keyword, default); pinger "
+            "case = ping/pongAll sequence; distinct = sha1 of the canonical case; non-trivial = the executed trace switches threads at least 4 "
+            "times (threads) / some task had to wait (lock)")
     trusted_base = ["Model/Handoff.lean, Model/CoopLock.lean, Model/HandoffSites.lean hand-written from recoco.py; tied by ops_agree/ops_cover + trace validation",
                     "harness/translate/sites.py (decides which statements are listed) and harness/forcedthreads.py (forced scheduler, replaced primitives)",
                     "mapping of operations on shared objects to model actions in harness/c07.py (SITE_CLASS: operation@role -> candidate actions; "
